@@ -36,6 +36,11 @@ ExpectedArcs(N, G) ==
            {[u |-> NodeOfRxn(G, N.rx[j].id), v |-> NodeOfSpecies(G, s), stoich |-> N.rx[j].r[s], role |-> "product"] : s \in DOMAIN N.rx[j].r}
          : j \in 1..NRx(N) }
 
+(* every species / reaction of N has a node to refer to (guards the CHOOSEs above: TLC evaluates every clause) *)
+NodesComplete(N, G, byid) ==
+   /\ \A s \in Occurring(N) : \E k \in SpNodes(G) : G.nodes[k].label = s
+   /\ byid => \A id \in Ids(N) : \E k \in RxNodes(G) : G.nodes[k].eid = id
+
 BipVerdict(c) ==
    LET N == c.net
        G == c.G
@@ -56,7 +61,8 @@ BipVerdict(c) ==
              /\ {G.nodes[k].iid : k \in DOMAIN G.nodes} = 1..Len(G.nodes)
              /\ \A k \in SpNodes(G) : G.nodes[k].iid <= Cardinality(SpNodes(G))>>,
       <<"export-arcs-exactly-the-incidences",
-          byid => /\ Range(G.arcs) = ExpectedArcs(N, G)
+          byid => /\ NodesComplete(N, G, byid)
+                  /\ Range(G.arcs) = ExpectedArcs(N, G)
                   /\ NoDup(G.arcs)>>,
       <<"export-mol-labels",
           \A k \in SpNodes(G) :
